@@ -228,6 +228,14 @@ class PathEnum:
                     path = callee_path(t)
                 ct = ("call", path, args, bb)
                 events = events + [("call", bb, None, path, ct)]
+                # `?` on a literal Ok/Err folds
+                if path == "std::ops::Try::branch" and args and args[0][0] == "agg" and args[0][2] in ("Ok", "Err") and adt_base(args[0][1]) == "std::result::Result":
+                    if args[0][2] == "Ok":
+                        ct = ("agg", "std::ops::ControlFlow", "Continue", args[0][3])
+                    else:
+                        ct = ("agg", "std::ops::ControlFlow", "Break", (args[0],))
+                elif path == "std::ops::FromResidual::from_residual" and args and args[0][0] == "agg" and args[0][2] == "Err":
+                    ct = args[0]
                 # a callee that receives &mut to a tracked place may change it
                 for a in t["args"]:
                     self._havoc_mut(env, a, path)
